@@ -68,7 +68,7 @@ func StoresTo(loc string) Sel {
 	}}
 }
 
-// MapUpdates selects m[k] = v instructions whose map renders as mapTerm.
+// MapUpdates_h2server selects m[k] = v instructions whose map renders as mapTerm.
 func MapUpdates_h2server(mapTerm string) Sel {
 	return Sel{"map update " + mapTerm, func(p *Prog, fn *ssa.Function) []ssa.Instruction {
 		var out []ssa.Instruction
@@ -81,7 +81,7 @@ func MapUpdates_h2server(mapTerm string) Sel {
 	}}
 }
 
-// Sends selects channel sends whose channel renders as chanTerm.
+// Sends_h2server selects channel sends whose channel renders as chanTerm.
 func Sends_h2server(chanTerm string) Sel {
 	return Sel{"send on " + chanTerm, func(p *Prog, fn *ssa.Function) []ssa.Instruction {
 		var out []ssa.Instruction
@@ -141,7 +141,7 @@ func stripConv_h2server(v ssa.Value) ssa.Value {
 	}
 }
 
-// edgeFacts returns the facts that hold when control moves from pred to succ.
+// edgeFacts_h2server returns the facts that hold when control moves from pred to succ.
 func edgeFacts_h2server(pred, succ *ssa.BasicBlock) []Fact {
 	fs := append([]Fact{}, FactsAt(pred)...)
 	if len(pred.Instrs) > 0 {
@@ -507,7 +507,7 @@ func (c *Ctx) ElemWriters(field string, allowed ...string) bool {
 	return ok
 }
 
-// EdgeFacts returns the branch facts that hold when control moves from pred to succ.
+// EdgeFacts_h2server returns the branch facts that hold when control moves from pred to succ.
 func EdgeFacts_h2server(pred, succ *ssa.BasicBlock) []Fact { return edgeFacts_h2server(pred, succ) }
 
 // Tests selects the If instructions that test the given condition (either polarity).
